@@ -8,6 +8,7 @@ from lib.props.c08 import parse_view
 LEVEL = "proof"
 MODEL_FILES = ["Model/View.v", "Model/MatchM.v", "Model/FlowM.v", "Model/AlgoIO.v"]
 THEOREMS = []
+EXTRA_PROPS = ["C15b"]
 STREAMS = [("C15", 3000, 120000)]
 SHARD = 3000
 RELEASE_TOO = True
